@@ -25,7 +25,8 @@ MAPPABLE = ('S1', 'S2', 'S3', 'S4')
 # C05_RESCOUNT=1 a small extra unit runs them and records what happens under informational
 # counters and outcome labels only - never as a violation.
 RESCOUNT = ('S5', 'S6') if os.environ.get('C05_RESCOUNT') == '1' else ()
-ALL = LETTERS + ('S5', 'S6')
+ALL = LETTERS + ('S5', 'S6', 'S7', 'S8')
+SHARED = ('S7', 'S8')          # two loadable species that share a residue kind (see SPECIES)
 SCALES = (0.5, 1.0)
 BOXES = ('rect', 'tric', 'hex', 'gen')
 TOL_FMT = 0.5e-3 + 1e-9          # coordinate format: 3 decimals
@@ -53,13 +54,19 @@ SPECIES = {
            [('P1', 'S5P', 1), ('P2', 'S5P', 1), ('Q1', 'S5Q', 2), ('Q2', 'S5Q', 2)], _chain(4)),
     'S6': ([('J1', 'S6X', 1), ('K1', 'S6Y', 2), ('K2', 'S6Y', 2)], _chain(3),
            [('R1', 'S6A', 1), ('R2', 'S6A', 1), ('R3', 'S6A', 1), ('R4', 'S6A', 1)], _chain(4)),
+    # S7's second residue and S8's only residue are of the same KIND (name TLR, one atom T1): the topologies are loaded
+    # S7 first (the order in which the library can tell them apart), each TLR residue belongs to exactly one molecule
+    'S7': ([('H1', 'HDR', 1), ('H2', 'HDR', 1), ('T1', 'TLR', 2)], _chain(3),
+           [('X1', 'S7P', 1), ('X2', 'S7P', 1), ('Y1', 'S7Q', 2), ('Y2', 'S7Q', 2)], _chain(4)),
+    'S8': ([('T1', 'TLR', 1)], [],
+           [('Z1', 'S8A', 1), ('Z2', 'S8A', 1)], _chain(2)),
     'U': ([('U1', 'UNM', 1), ('U2', 'UNM', 1)], _chain(2), None, None),
     'W': ([('W', 'W', 1)], [], None, None),
 }
 # workflow histories on ONE Manager (system S1 S2 W S1 U): attach through add_end_molecule, attach / detach through
 # the documented molecule_correspondence[name].end attribute, compute maps, extrapolate
 HIST_SEQ = ['S1', 'S2', 'W', 'S1', 'U']
-HIST_EVENTS = ('extr', 'calc', 'add:S1', 'add:S2', 'set:S1', 'set:S2', 'det:S1', 'det:S2', 'frame')
+HIST_EVENTS = ('extr', 'calc', 'add:S1', 'add:S2', 'set:S1', 'set:S2', 'det:S1', 'det:S2', 'frame', 'cmp')
 END_RESID_OFFSET = 76             # residue numbers carried by the end-resolution files
 
 BOX = {'rect': np.array([7.25, 6.5, 8.125]),
@@ -200,8 +207,8 @@ class C05(Check):
             'are enumerated: an end molecule can only be attached to a species present in the system, the scale '
             'is irrelevant when no map is computed, the subset is irrelevant when nothing is attached. '
             'non-trivial = a file with at least one mapped molecule was written and compared, or the '
-            'failure mode raised. Workflow histories: every sequence of a fixed length over 9 events (attach via '
-            'add_end_molecule / via the .end attribute, detach, compute maps, hand the manager another frame of the system, extrapolate) ending in extrapolate, on one '
+            'failure mode raised. Workflow histories: every sequence of a fixed length over 10 events (attach via '
+            'add_end_molecule / via the .end attribute, detach, compute maps, hand the manager another frame of the system, write the comparison file of the attached species, extrapolate) ending in extrapolate, on one '
             'Manager, with a 2-bit-per-species model deciding what each extrapolate must write')
     technique = ('exhaustive enumeration of system compositions x attachment subsets x box x scale x '
                  'pre-flight failure modes on the real Manager; output re-read by an independent '
@@ -210,7 +217,7 @@ class C05(Check):
     level_text = ('every sequence of 1..3 (quick) / 1..5 (thorough) molecules over 6 species (3-atom, 2-residue, '
                   '2-atom and 1-atom references, an unmapped loaded species, solvent), every attachment subset, '
                   '4 boxes (rectangular, triclinic, hexagonal with a negative component and a non-ASCII title, lattice vectors in a general orientation), system built by the constructor or step by step in reverse order, 2 scales and 3 failure modes are executed on the real code; plus every workflow history of '
-                  'length 5 (quick) / 6 (thorough) over 9 manager events; a coverage statement over that finite space')
+                  'length 5 (quick) / 6 (thorough) over 10 manager events; a coverage statement over that finite space')
     level_note = ('trusted: the text builders and the 30-line reader in this module, numpy; alignment is not run '
                   '(the maps are built from the placed coordinates); velocities and non-default coordinate '
                   'precision are not covered. KNOWN LIMITATION (outside the premise, informational only): when the two '
@@ -242,6 +249,9 @@ class C05(Check):
             # the five-digit boundary: a mapped system of 100 002 atoms (atom numbers wrap, lines keep their width)
             self.bounds['large_system'] = '50 001 one-bead molecules -> 100 002 atoms'
             u.append({'big100k': True})
+        self.bounds['species_sharing_a_residue_kind'] = {'species': list(SHARED), 'alphabet': ['S7', 'S8', 'S1', 'W'],
+                                                         'sequence_length': [2, 4], 'topologies_loaded': 'S7 before S8'}
+        u.append({'shared': True})
         if RESCOUNT:
             self.bounds['residue_count_differs'] = {'species': list(RESCOUNT), 'sequence_length_max': 2,
                                                     'alphabet': list(RESCOUNT) + ['S1', 'W']}
@@ -259,6 +269,12 @@ class C05(Check):
             return
         if unit.get('big100k'):
             yield {'big100k': 1}
+            return
+        if unit.get('shared'):
+            for n in (2, 3, 4):
+                for seq in itertools.product(('S7', 'S8', 'S1', 'W'), repeat=n):
+                    if 'S7' in seq and 'S8' in seq:
+                        yield {'seq': list(seq), 'box': 'rect', 'noadd': 1}
             return
         if unit.get('hist'):
             for mid in itertools.product(HIST_EVENTS, repeat=unit['hist'] - 3):
@@ -280,12 +296,12 @@ class C05(Check):
             subs = [(case['mode'], case['sub'], case['scale'], case.get('load', 'ctor'))]
         else:
             subs = [('nothing', [], None, 'ctor')]
-            present = [s for s in MAPPABLE + RESCOUNT if s in world.present]
+            present = [s for s in MAPPABLE + RESCOUNT + SHARED if s in world.present]
             nload = len([s for s in world.present if s != 'W'])
             for sub in subsets(present):
                 for sc in SCALES:
                     subs.append(('computed', sub, sc, 'ctor'))
-                if nload >= 2:
+                if nload >= 2 and not case.get('noadd'):
                     subs.append(('computed', sub, SCALES[0], 'add'))
                 subs.append(('not_computed', sub, None, 'ctor'))
                 if len(sub) >= 2:
@@ -455,6 +471,11 @@ class C05(Check):
                     elif op == 'calc':
                         man.calculate_exchange_maps(scale_factor=0.5)
                         mapped |= attached
+                    elif op == 'cmp':
+                        # the documented inspection aid: the two resolutions of every attached species written side by
+                        # side to a scratch file (touches nothing the manager uses later)
+                        for k, sp2 in enumerate(sorted(attached)):
+                            man.molecule_correspondence[sp2].write_comparative_gro(os.path.join(d, f'cmp{i}_{k}.gro'))
                     elif op == 'frame':
                         # the manager is given ANOTHER frame of the same system (other title, box, coordinates, residue
                         # numbers) through its public attribute; attached molecules and maps stay.  From now on "the
